@@ -241,6 +241,14 @@ pub fn threads_created_by_current_thread() -> u64 {
     THREADS_CREATED.try_with(|c| c.get()).unwrap_or(0)
 }
 
+/// Threads started by simulated threads since the process began (helper threads of the code under
+/// test: they may outlive the call and serve other callers, like a pool).
+pub static HELPER_THREADS_IN_PROCESS: AtomicU64 = AtomicU64::new(0);
+
+pub fn helper_threads_in_process() -> u64 {
+    HELPER_THREADS_IN_PROCESS.load(Ordering::Relaxed)
+}
+
 type PthreadCreate = unsafe extern "C" fn(
     *mut libc::pthread_t,
     *const libc::pthread_attr_t,
@@ -265,6 +273,14 @@ pub unsafe extern "C" fn pthread_create(
         REAL.store(real, Ordering::Relaxed);
     }
     let _ = THREADS_CREATED.try_with(|c| c.set(c.get() + 1));
+    // a simulated thread (one with an entropy stream of its own) starting a thread: the code
+    // under test has helper threads in this process
+    let simulated = ENTROPY
+        .try_with(|e| e.try_borrow().map(|e| e.is_some()).unwrap_or(false))
+        .unwrap_or(false);
+    if simulated {
+        HELPER_THREADS_IN_PROCESS.fetch_add(1, Ordering::Relaxed);
+    }
     let real: PthreadCreate = std::mem::transmute(real);
     real(thread, attr, start, arg)
 }
